@@ -312,8 +312,12 @@ def inline_val(v: Any) -> str:
     return str(v)
 
 
-def plan_group(e: dict[str, Any], tab: dict[str, Any], rng: random.Random, thorough: bool) -> dict[str, Any]:
-    """All equivalence runs and conflict runs for one option."""
+def plan_group(e: dict[str, Any], tab: dict[str, Any], rng: random.Random, thorough: bool, full: bool = True) -> dict[str, Any]:
+    """All equivalence runs and conflict runs for one option.
+
+    full=False (quick tier, option not in the seeded sample): sources that change the *global* options to a non-default
+    value are compared on `process_options` + `clone_for_module` snapshots only, so that no cold typeshed build is needed;
+    per-module sources and inline comments are still run through complete builds."""
     k = e["dest"]
     kind = e["kind"]
     attrs = set(tab["defaults"])
@@ -330,6 +334,8 @@ def plan_group(e: dict[str, Any], tab: dict[str, Any], rng: random.Random, thoro
     def add(vid: str, cls: str, src: str, spelling: str, v: Any, **kw: Any) -> None:
         r = {"id": f"{vid}|{src}|{spelling}", "cls": cls, "vid": vid, "src": src, "spelling": spelling,
              "value": expected_value(e, v), **kw}
+        if cls == "global" and not full and expected_value(e, v) != default:
+            r["no_build"] = True
         runs.append(r)
 
     for vid, v in vals:
@@ -439,6 +445,9 @@ def plan_group(e: dict[str, Any], tab: dict[str, Any], rng: random.Random, thoro
                 if g is not None and g != default and cli(g):
                     eff = cli(g) or []
                 nb = {"no_build": True} if (not thorough and "line1" not in kw) else {}
+                if "line1" in kw and not full and g is not None and g != default:
+                    notes.append(f"{k}: quick tier, option outside the seeded full-build sample: inline conflicts over a non-default global value not run")
+                    return
                 conflicts.append({"id": f"conflict|{name}|{pid}", "cls": "conflict", "vid": pid, "src": name, "spelling": "-",
                                   "expect": expect, "eff_flags": eff, "cache_tag": "" if (eff or g == default) else json.dumps(g), "merge_ok": kind == "list", **kw, **nb})
 
